@@ -164,3 +164,5 @@ REG.add("finding_to_directed_reverse", T_conv, body,
         tier="quick", timeout=300, finding="F-C16-one-direction",
         bounds="DynGraph with one pair, one run of <= 2 instants",
         what="(expected to fail) to_directed() also creates the direction v->u opposite to the one interactions() lists")
+
+REG.conds["to_undirected_recip_n2_1"].tier = "thorough"
